@@ -305,4 +305,5 @@ Extraction "model.ml"
   Inlines.mkIO
   Inlines.mkOracle
   Inlines.fn_resolve
+  Inlines.refdefs
 .
